@@ -8,11 +8,11 @@ import (
 	"flag"
 	"fmt"
 	"os"
+	"runtime/debug"
 	"runtime/pprof"
 	"sort"
 	"strconv"
 	"strings"
-	"time"
 
 	storetypes "cosmossdk.io/store/types"
 
@@ -36,9 +36,9 @@ func lmaxFor(tier string) []int {
 		return out
 	}
 	if tier == "thorough" {
-		return []int{7, 7, 6, 4}
+		return []int{7, 6, 5, 4}
 	}
-	return []int{6, 6, 4}
+	return []int{6, 5, 4}
 }
 
 var fastDump = flag.Bool("fastdump", false, "diagnostics: read the subscriber store by point lookups in blocks with deviations")
@@ -68,6 +68,7 @@ type Explorer struct {
 	expired  bool
 	execs    int64
 	byDevs   [8]int64
+	bySize   [8]int64
 	maxPts   int64
 	best     map[string]core.Violation // per assertion: the simplest failing schedule seen by this shard
 	replay   bool
@@ -174,7 +175,22 @@ func (e *Explorer) step(n *node, di int, owned bool) {
 	if !*dry {
 		s0 = e.w.Snapshot(res.Ctx)
 	}
-	e.variants(n, di, block, tOff, childDeltas, nil, res.Log, s0, owned)
+	var ab aborts
+	e.variants(n, di, block, tOff, childDeltas, nil, res.Log, s0, owned, &ab)
+
+	// dropped blocks: every out-of-gas placement with the same number of deviations leaves the same state
+	// (the parent's content, this block's time and height), so one node stands for all of them
+	for s := range ab {
+		a := &ab[s]
+		if a.ways == 0 {
+			continue
+		}
+		child := &node{st: n.st, m: a.next, depth: block, deltas: childDeltas, devs: a.devs, used: len(a.devs), poly: make([]int64, len(n.poly))}
+		for k := range n.poly {
+			child.poly[k] = n.poly[k] * a.ways
+		}
+		e.expand(child, owned)
+	}
 
 	// descend along the all-ok block
 	p := len(res.Log)
@@ -211,7 +227,14 @@ func (e *Explorer) drive(n *node, block int, tOff int64, blockDevs []Dev) (Block
 	return res, ex, Check(e.w, n.m, &ex, tOff, &res, e.fullDump || len(blockDevs) == 0)
 }
 
-func (e *Explorer) variants(n *node, di, block int, tOff int64, childDeltas []int, blockDevs []Dev, log []Inv, s0 State, owned bool) {
+// aborts[s] collects the dropped-block successors produced by deviation sets of size s in one block.
+type aborts [8]struct {
+	ways int64
+	next Model
+	devs []Dev // first such set in enumeration order, with the path's: the representative for signatures
+}
+
+func (e *Explorer) variants(n *node, di, block int, tOff int64, childDeltas []int, blockDevs []Dev, log []Inv, s0 State, owned bool, ab *aborts) {
 	if !e.allowed(block, n.used+len(blockDevs)+1) {
 		return
 	}
@@ -253,11 +276,16 @@ func (e *Explorer) variants(n *node, di, block int, tOff int64, childDeltas []in
 			}
 			if res.Panicked {
 				// dropped block: the state is unchanged, time and height moved on
-				child := &node{st: n.st, m: ex.Next, depth: block, deltas: childDeltas, devs: allDevs, used: len(allDevs), poly: n.poly}
-				e.expand(child, owned)
+				a := &ab[len(bd)]
+				if a.ways == 0 {
+					a.next, a.devs = ex.Next, allDevs
+				} else if a.next != ex.Next {
+					panic("harness: dropped-block successors differ")
+				}
+				a.ways++
 				continue
 			}
-			e.variants(n, di, block, tOff, childDeltas, bd, res.Log, s0, owned)
+			e.variants(n, di, block, tOff, childDeltas, bd, res.Log, s0, owned, ab)
 		}
 	}
 }
@@ -287,6 +315,7 @@ func (e *Explorer) expand(n *node, owned bool) {
 func (e *Explorer) count(n *node, ex *Expect, res *BlockResult, deltaIdx []int, devs []Dev, block, inBlock int) {
 	r := e.r
 	r.Transitions++
+	e.bySize[inBlock]++
 	e.represented(n, block, inBlock)
 	nd := len(devs)
 	v := r.Vacuity
@@ -407,6 +436,8 @@ func main() {
 		return
 	}
 	lmax := lmaxFor(f.Tier)
+	// the live heap is a few MB; collect less often
+	debug.SetGCPercent(1000)
 	if *cpuProf != "" {
 		pf, _ := os.Create(*cpuProf)
 		_ = pprof.StartCPUProfile(pf)
@@ -432,6 +463,9 @@ func main() {
 	}
 	r.States = e.nodes
 	for k := 0; k < len(lmax); k++ {
+		r.Extra[fmt.Sprintf("sum_blocks_driven_with_%d_deviations_inside", k)] = e.bySize[k]
+	}
+	for k := 0; k < len(lmax); k++ {
 		r.Extra[fmt.Sprintf("sum_histories_with_%d_deviations", k)] = e.byDevs[k]
 	}
 	r.Extra["max_subscriber_calls_in_one_block"] = e.maxPts
@@ -443,13 +477,7 @@ func main() {
 	if f.Mine(0) {
 		r.AddSample("configurations: " + strings.Join(configNames, " | ") + "; t0 = genesis+3s; every sequence over {" + strings.Join(deltaNames, ",") + "}")
 	}
-	finish(f, r)
-}
-
-// finish stamps the wall time and emits (core.Finish lives in explore.go, which needs the whole application).
-func finish(f *core.Flags, r *core.Result) {
-	r.WallS = time.Since(f.Start).Seconds()
-	r.Emit()
+	core.Finish(f, r)
 }
 
 func index(names []string, s string) int {
@@ -532,5 +560,5 @@ func doReplay(f *core.Flags, r *core.Result) {
 	if fails := checkGenesis(e.w); len(fails) > 0 {
 		e.report(nil, nil, fails)
 	}
-	finish(f, r)
+	core.Finish(f, r)
 }
